@@ -102,6 +102,14 @@ def plan(tier, seed):
         parts = [p for p in M.partitions(mol, max_frag=5) if len(p) >= 4]
         for i in range(0, len(parts), 1):
             tasks.append({'space': 'stars', 'mols': [mol], 'name': nm, 'parts': parts[i:i + 1], 'level': 'full' if (len(parts[i]) <= 4 or not q) else 'lite', 'pre': (0, 0)})
+    # shared nodes at one and at two consecutive levels of a layered string (coarse bottoms of the C06 generator)
+    from . import c06
+    for t in c06.plan(tier, seed, for_invariants=True):
+        if t.get('bottom') == 'coarse':
+            t = dict(t)
+            t['space'] = 'layered-shared'
+            t['kind'] = 'layered-shared'
+            tasks.append(t)
     names = sorted(M.SLICE)
     nm = names[seed % len(names)]
     parts = [p for p in M.partitions(M.SLICE[nm], max_frag=3) if len(p) >= 2]
@@ -140,6 +148,14 @@ def leaves(mol, comps, level):
 
 
 def run_task(task, R):
+    if task.get('kind') == 'layered-shared':
+        from . import c06
+        for inp in c06.cases(task, R):
+            if 'share' not in inp['variant']:
+                continue
+            inp = dict(inp, kind='layered-shared')
+            R.record(inp, evaluate(inp))
+        return
     ex_total = Explorer(dedup=False)
     ex_total.states += task['pre'][0]
     ex_total.transitions += task['pre'][1]
@@ -158,7 +174,42 @@ def run_task(task, R):
     R.add_explorer(ex_total)
 
 
+def evaluate_layered(inp):
+    """overlapping description at intermediate levels == the flattened (disjoint) description; one node fewer per
+    shared pair than the fragments of that level contain together"""
+    from cgsmiles import MoleculeResolver, read_cgsmiles
+    sh = inp['variant']['share']
+    nshare = 1 if isinstance(sh[0], int) else len(sh)
+    try:
+        flat = read_cgsmiles(inp['flat'])
+    except Exception as e:
+        return Verdict(skip=True, outcome='flattened-string-not-readable')
+    try:
+        r = MoleculeResolver.from_string(inp['string'], last_all_atom=False)
+        steps = list(r.resolve_iter())
+    except Exception as e:
+        return bad('layered:raises:' + type(e).__name__, None, {'string': inp['string'], 'error': repr(e)[:160]})
+    merged = 0
+    for i, (coarse, fine) in enumerate(steps):
+        total = sum(len(r.fragment_dicts[i][d['fragname']]) for _, d in coarse.nodes(data=True))
+        two = [n for n, d in fine.nodes(data=True) if len(set(d.get('fragid', []))) > 1]
+        if total - len(fine) != len(two):
+            return bad('layered:node-count', None, {'string': inp['string'], 'step': i, 'fragment_nodes': total, 'fine_nodes': len(fine),
+                                                    'nodes_with_two_owners': len(two)})
+        merged += len(two)
+    if merged != nshare:
+        return bad('layered:shared-atom-membership', nshare, {'string': inp['string'], 'nodes_with_two_owners': merged})
+    final = steps[-1][1]
+    ok = nx.is_isomorphic(final, flat, node_match=lambda a, b: a.get('atomname') == b.get('fragname'),
+                          edge_match=lambda a, b: a.get('order') == b.get('order'))
+    if not ok:
+        return bad('layered:differs-from-disjoint', {'flat': inp['flat']}, {'string': inp['string'], 'n': len(final), 'edges': len(final.edges)})
+    return Verdict(nontrivial=True, outcome='layered/%d/%d/%s' % (len(steps), nshare, inp['groups']))
+
+
 def evaluate(inp):
+    if inp.get('kind') == 'layered-shared':
+        return evaluate_layered(inp)
     from cgsmiles import MoleculeResolver
     mol = inp['mol']
     ref = c01.reference(mol)
